@@ -342,8 +342,11 @@ class PeerManager:
                                        (session, peer))
 
             async for task in g:
-                if not task.cancelled():
-                    task.result()
+                # A failed check raises before the tasks it cancels are seen, so a
+                # cancelled task here is a request that timed out: not verified
+                if task.cancelled():
+                    raise TaskTimeout(session.sent_request_timeout)
+                task.result()
 
         # Process reported peers if remote peer is good
         peers = peers_task.result()
